@@ -59,54 +59,63 @@ def signalled (t : Tree) (b : Nat) : Option Ann :=
 /-- comparable with `b`: on the chain of `b` or descending from it -/
 def cmp (t : Tree) (b x : Nat) : Bool := anc t b x || anc t x b
 
+/-- a header with two scheduled or two forced changes (no runtime emits one) -/
+def malformed (t : Tree) (b : Nat) : Bool :=
+  let ds := t.anns.filter (·.blk = b)
+  decide ((ds.filter (·.forced)).length > 1) || decide ((ds.filter (fun d => !d.forced)).length > 1)
+
+/-- `add_pending_change`: a forced change is refused when another one is pending on the same fork -/
+def Spec.addChange (t : Tree) (p : Spec) (b : Nat) : Except String Spec :=
+  match signalled t b with
+  | none => .ok p
+  | some c =>
+    if c.forced then
+      if p.forced.any (fun f => anc t f.blk b) then .error "e-digest:already"
+      else .ok { p with forced := p.forced ++ [c] }
+    else .ok { p with std := specImportStd t c p.std }
+
+/-- `apply_forced_changes` at the imported block `b` (`p` = state before the block, `p1` = with its change) -/
+def Spec.enactForced (t : Tree) (p p1 : Spec) (b : Nat) : Spec × String :=
+  match p1.forced.find? (fun f => anc t f.blk b && decide (eff t f = num t b)) with
+  | none => ({ p1 with known := p1.known ++ [b] }, "ok")
+  | some f =>
+    if p1.std.any (fun r => decide (eff t r.ann ≤ f.best) && anc t r.ann.blk f.blk) then (p, "e-forced:pending")
+    else
+      let p2 := p1.enact f.tag f.best
+      ({ p2 with std := [], forced := [], known := p1.known ++ [b] }, "ok")
+
 /-- `imp b`.  A block is accepted when its parent is accepted and not below the finalised block.
     A block whose forced change would be the second one pending on its fork, or that enacts a forced change
     depending on a pending standard change, is rejected as a whole (nothing changes). -/
 def Spec.importBlock (t : Tree) (p : Spec) (b : Nat) : Spec × String :=
   if !(p.known.contains (par t b) && anc t p.fin (par t b)) then (p, "e-parent")
   else
-    -- add_pending_change
-    let added : Except String Spec :=
-      match signalled t b with
-      | none => .ok p
-      | some c =>
-        if c.forced then
-          if p.forced.any (fun f => anc t f.blk b) then .error "e-digest:already"
-          else .ok { p with forced := p.forced ++ [c] }
-        else .ok { p with std := specImportStd t c p.std }
-    match added with
+    match p.addChange t b with
     | .error e => (p, e)
-    | .ok p1 =>
-      -- apply_forced_changes
-      match p1.forced.find? (fun f => anc t f.blk b && eff t f == num t b) with
-      | none => ({ p1 with known := p1.known ++ [b] }, "ok")
-      | some f =>
-        if p1.std.any (fun r => decide (eff t r.ann ≤ f.best) && anc t r.ann.blk f.blk) then (p, "e-forced:pending")
-        else
-          let p2 := p1.enact f.tag f.best
-          ({ p2 with std := [], forced := [], known := p1.known ++ [b] }, "ok")
+    | .ok p1 => Spec.enactForced t p p1 b
 
 /-- `fin b` for an accepted block that is the finalised block or descends from it
     (`apply_standard_changes` / `finalize_with_descendent_if`).
     Choice: the block-level finalisation always takes place (that is property C17's subject); when the fork
-    tree reports an unfinalised ancestor the set id, the authorities and the standard changes are left
-    untouched.
-    Choice: a pending forced change stays pending exactly while its announcing block is the finalised block
-    or descends from it. -/
+    tree reports an unfinalised ancestor the set id, the authorities and the pending standard changes on the
+    finalised branch are left untouched.
+    Choice: pending changes on forks that the finalisation abandons are discarded at every finalisation, and
+    a pending forced change stays pending exactly while its announcing block is the finalised block or
+    descends from it. -/
 def Spec.finalise (t : Tree) (p : Spec) (b : Nat) : Spec × String :=
   if !(p.known.contains b && anc t p.fin b) then (p, "e-fin")
   else
     let n := num t b
     let p0 := { p with fin := b, known := p.known.filter (cmp t b),
-                       forced := p.forced.filter (fun f => anc t b f.blk) }
+                       forced := p.forced.filter (fun f => anc t b f.blk),
+                       std := p.std.filter (fun r => cmp t b r.ann.blk) }
     match p.std.find? (fun r => decide (eff t r.ann ≤ n) && anc t r.ann.blk b) with
     | some r =>
       if r.kids.any (fun k => decide (num t k.ann.blk ≤ n) && anc t k.ann.blk b) then
         (p0, "ok+e-sched:unfin")
       else
         ({ p0 with std := r.kids.filter (fun k => cmp t b k.ann.blk) }.enact r.ann.tag n, "ok")
-    | none =>
-      ({ p0 with std := p0.std.filter (fun r => cmp t b r.ann.blk) }, "ok")
+    | none => (p0, "ok")
 
 def Spec.step (t : Tree) (p : Spec) : Op → Spec × String
   | .imp b => p.importBlock t b
